@@ -48,7 +48,7 @@ def passes(r, o, blacklist):
         return False
     if blacklist is not None:
         for (s, e) in blacklist:
-            if s <= r['start'] < e or s <= r['end'] < e:
+            if r['start'] < e and r['end'] > s:      # the read [start, end) overlaps the blacklisted half-open interval [s, e)
                 return False
     return True
 
@@ -110,6 +110,8 @@ def passes_sym(v, o):
     ok = ok & implies(o['mbe_set'] & v['nm_present'], v['nm'] <= o['mbe'])
     ok = ok & implies(o['filterXA'], neg(v['xa_hits_primary']))
     ok = ok & implies(o['filterMP'], v['mp_unique'])
-    inside = lambda x: (o['bs'] <= x) & (x < o['be'])
-    ok = ok & implies(o['bl'], neg(inside(v['start'])) & neg(inside(v['end'])))
+    overlaps = (v['start'] < o['be']) & (v['end'] > o['bs'])      # read [start, end) against the blacklisted interval [bs, be)
+    if o.get('decoy') is not None:
+        overlaps = overlaps | ((v['start'] < o['decoy'][1]) & (v['end'] > o['decoy'][0]))
+    ok = ok & implies(o['bl'], neg(overlaps))
     return ok
